@@ -81,34 +81,39 @@ Qed.
 (** * everything about one grammar *)
 Section Main.
   Variable G : gram.
+  Variable O : oracle.
+  Hypothesis HO : oracle_ok G O.
+  Let HOn : orders_ok G (o_null O) := proj1 HO.
+  Let HOf : orders_ok G (o_first O) := proj1 (proj2 HO).
+  Let HOo : orders_ok G (o_follow O) := proj2 (proj2 HO).
 
   (** the analysis never runs out of fuel, and its components are the three tables *)
   Lemma analyse_total :
     exists nu fi fo,
-      nullable G = Some nu /\ first_table G = Some fi /\ follow_table G fi = Some fo /\
-      analyse G = Some (mkAnalysis nu fi fo (ll1_errors fi fo (prods G)) (table_build G fi fo)
+      nullable G O = Some nu /\ first_table G O = Some fi /\ follow_table G O fi = Some fo /\
+      analyse G O = Some (mkAnalysis nu fi fo (ll1_errors fi fo (prods G)) (table_build G fi fo)
                                    (conflicts G (table_build G fi fo))).
   Proof.
-    destruct (nullable_exact G) as [nu [En _]].
-    destruct (first_table_exact G) as [fi [Ef _]].
-    destruct (first_table_props G fi Ef) as [F1 [F2 F3]].
-    destruct (follow_table_props G fi F1 F2 F3) as [fo [Eo _]].
+    destruct (nullable_exact G O HOn) as [nu [En _]].
+    destruct (first_table_exact G O HOf) as [fi [Ef _]].
+    destruct (first_table_props G O HOf fi Ef) as [F1 [F2 F3]].
+    destruct (follow_table_props G fi F1 F2 F3 O HOo) as [fo [Eo _]].
     exists nu, fi, fo. unfold analyse. rewrite En, Ef, Eo. auto.
   Qed.
 
   (** ** nullable *)
   Theorem nullable_thm :
-    exists nu, NullableNonTerminals G = Some nu /\ forall A, In A nu <-> nullable_nt G A.
-  Proof. apply nullable_exact. Qed.
+    exists nu, NullableNonTerminals G O = Some nu /\ forall A, In A nu <-> nullable_nt G A.
+  Proof. apply nullable_exact, HOn. Qed.
 
   (** ** FIRST *)
   Theorem first_thm alpha :
     Forall (fun s => known G s = true) alpha ->
-    exists ts e, FIRST G alpha = Some (Ok (ts, e))
+    exists ts e, FIRST G O alpha = Some (Ok (ts, e))
                  /\ (forall a, In a ts <-> first_sem G alpha a)
                  /\ (e = true <-> nullable_str G alpha).
   Proof.
-    intros Hk. destruct (first_table_exact G) as [fi [Ef [X1 X2]]].
+    intros Hk. destruct (first_table_exact G O HOf) as [fi [Ef [X1 X2]]].
     destruct (first_str_go_spec G fi alpha [] Hk) as [ts [E Hts]].
     destruct (first_str_spec fi alpha) as [S1 S2].
     exists ts, (snd (first_str fi alpha)). unfold FIRST. rewrite Ef. split; [now rewrite E|]. split.
@@ -119,9 +124,9 @@ Section Main.
   (** a symbol outside the grammar panics exactly when the scan reaches it *)
   Theorem first_panic_thm alpha X beta :
     Forall (fun s => known G s = true) alpha -> known G X = false ->
-    FIRST G (alpha ++ X :: beta) = Some Panic <-> nullable_str G alpha.
+    FIRST G O (alpha ++ X :: beta) = Some Panic <-> nullable_str G alpha.
   Proof.
-    intros Hk HX. destruct (first_table_exact G) as [fi [Ef [_ X2]]]. unfold FIRST. rewrite Ef.
+    intros Hk HX. destruct (first_table_exact G O HOf) as [fi [Ef [_ X2]]]. unfold FIRST. rewrite Ef.
     rewrite <- X2. clear X2 Ef. generalize (@nil nat) as acc.
     induction Hk as [|Y alpha HY _ IH]; intros acc; simpl.
     - rewrite HX. tauto.
@@ -133,12 +138,12 @@ Section Main.
   (** ** FOLLOW *)
   Theorem follow_complete_thm A :
     In A (nonterms G) ->
-    exists ts e, FOLLOW G A = Some (Ok (ts, e))
+    exists ts e, FOLLOW G O A = Some (Ok (ts, e))
                  /\ (forall a, follow_sem G A a -> In a ts) /\ (follow_end G A -> e = true).
   Proof.
-    intros HA. destruct (first_table_exact G) as [fi [Ef _]].
-    destruct (first_table_props G fi Ef) as [F1 [F2 F3]].
-    destruct (follow_table_props G fi F1 F2 F3) as [fo [Eo [Hc _]]].
+    intros HA. destruct (first_table_exact G O HOf) as [fi [Ef _]].
+    destruct (first_table_props G O HOf fi Ef) as [F1 [F2 F3]].
+    destruct (follow_table_props G fi F1 F2 F3 O HOo) as [fo [Eo [Hc _]]].
     exists (terms_of fo A), (flag_of fo A). unfold FOLLOW, follow_go. rewrite Ef, Eo.
     apply mem_In in HA. rewrite HA. split; [reflexivity|]. split.
     - intros a Ha. apply terms_of_In. now apply Hc.
@@ -147,12 +152,12 @@ Section Main.
 
   Theorem follow_thm A :
     valid G -> all_reachable G -> In A (nonterms G) ->
-    exists ts e, FOLLOW G A = Some (Ok (ts, e))
+    exists ts e, FOLLOW G O A = Some (Ok (ts, e))
                  /\ (forall a, In a ts <-> follow_sem G A a) /\ (e = true <-> follow_end G A).
   Proof.
-    intros HV Hr HA. destruct (first_table_exact G) as [fi [Ef _]].
-    destruct (first_table_props G fi Ef) as [F1 [F2 F3]].
-    destruct (follow_table_props G fi F1 F2 F3) as [fo [Eo [Hc [Hs _]]]].
+    intros HV Hr HA. destruct (first_table_exact G O HOf) as [fi [Ef _]].
+    destruct (first_table_props G O HOf fi Ef) as [F1 [F2 F3]].
+    destruct (follow_table_props G fi F1 F2 F3 O HOo) as [fo [Eo [Hc [Hs _]]]].
     assert (Hs' : follow_sound G fo).
     { apply Hs. intros p Hp. apply Hr. now apply (valid_prod G HV p Hp). }
     exists (terms_of fo A), (flag_of fo A). unfold FOLLOW, follow_go. rewrite Ef, Eo.
@@ -161,11 +166,11 @@ Section Main.
     - rewrite flag_of_true. split; [apply (Hs' A None) | apply Hc].
   Qed.
 
-  Theorem follow_panic_thm A : ~ In A (nonterms G) -> FOLLOW G A = Some Panic.
+  Theorem follow_panic_thm A : ~ In A (nonterms G) -> FOLLOW G O A = Some Panic.
   Proof.
-    intros HA. destruct (first_table_exact G) as [fi [Ef _]].
-    destruct (first_table_props G fi Ef) as [F1 [F2 F3]].
-    destruct (follow_table_props G fi F1 F2 F3) as [fo [Eo _]].
+    intros HA. destruct (first_table_exact G O HOf) as [fi [Ef _]].
+    destruct (first_table_props G O HOf fi Ef) as [F1 [F2 F3]].
+    destruct (follow_table_props G fi F1 F2 F3 O HOo) as [fo [Eo _]].
     unfold FOLLOW, follow_go. rewrite Ef, Eo.
     destruct (mem A (nonterms G)) eqn:E; [apply mem_In in E; contradiction | reflexivity].
   Qed.
@@ -184,8 +189,8 @@ Section Main.
 
   Section WithTables.
     Variables fi fo : list fact.
-    Hypothesis Ef : first_table G = Some fi.
-    Hypothesis Eo : follow_table G fi = Some fo.
+    Hypothesis Ef : first_table G O = Some fi.
+    Hypothesis Eo : follow_table G O fi = Some fo.
     Let t := table_build G fi fo.
 
     (** a conflict always comes with an IsLL1 error (for every grammar) *)
@@ -206,8 +211,8 @@ Section Main.
     Lemma cell_in_scan A x q : In q (cell_prods t A x) -> In A (nonterms G) /\ In x (lookaheads G).
     Proof.
       intros H. apply table_build_cell in H. destruct H as [Hq [E Hs]]. subst A.
-      destruct (first_table_props G fi Ef) as [F1 [F2 F3]].
-      destruct (follow_table_props G fi F1 F2 F3) as [fo' [Eo' [_ [_ [_ [_ Hu]]]]]].
+      destruct (first_table_props G O HOf fi Ef) as [F1 [F2 F3]].
+      destruct (follow_table_props G fi F1 F2 F3 O HOo) as [fo' [Eo' [_ [_ [_ [_ Hu]]]]]].
       rewrite Eo in Eo'. inversion Eo'; subst fo'.
       split; [now apply (valid_prod G HV q Hq)|].
       unfold lookaheads. apply in_or_app. apply select_In in Hs.
@@ -235,8 +240,8 @@ Section Main.
     (** FOLLOW(A) is inhabited when everything is reachable and productive *)
     Lemma follow_inhabited A : In A (nonterms G) -> exists x, In (A, x) fo.
     Proof.
-      intros HA. destruct (first_table_props G fi Ef) as [F1 [F2 F3]].
-      destruct (follow_table_props G fi F1 F2 F3) as [fo' [Eo' [Hc _]]].
+      intros HA. destruct (first_table_props G O HOf fi Ef) as [F1 [F2 F3]].
+      destruct (follow_table_props G fi F1 F2 F3 O HOo) as [fo' [Eo' [Hc _]]].
       rewrite Eo in Eo'. inversion Eo'; subst fo'.
       destruct (HR A HA) as [u [v Hd]].
       destruct (productive_string G v) as [w Hw].
@@ -269,7 +274,7 @@ Section Main.
   End WithTables.
 
   Theorem ll1_conflict_thm t :
-    BuildParsingTable G = Some (t, true) -> IsLL1 G = Some false.
+    BuildParsingTable G O = Some (t, true) -> IsLL1 G O = Some false.
   Proof.
     destruct analyse_total as [nu [fi [fo [En [Ef [Eo Ea]]]]]].
     unfold BuildParsingTable, IsLL1. rewrite Ea. simpl. intros H. inversion H as [[Ht Hc]].
@@ -279,7 +284,7 @@ Section Main.
   Qed.
 
   Theorem table_cells_thm :
-    valid G -> exists t c, BuildParsingTable G = Some (t, c) /\ (c = false <-> table_deterministic t).
+    valid G -> exists t c, BuildParsingTable G O = Some (t, c) /\ (c = false <-> table_deterministic t).
   Proof.
     intros HV. destruct analyse_total as [nu [fi [fo [En [Ef [Eo Ea]]]]]].
     unfold BuildParsingTable. rewrite Ea. simpl. eexists. eexists. split; [reflexivity|].
@@ -288,7 +293,7 @@ Section Main.
 
   Theorem ll1_iff_thm :
     valid G -> all_reachable G -> all_productive G ->
-    exists t c, BuildParsingTable G = Some (t, c) /\ (IsLL1 G = Some true <-> c = false)
+    exists t c, BuildParsingTable G O = Some (t, c) /\ (IsLL1 G O = Some true <-> c = false)
                 /\ (c = false <-> table_deterministic t).
   Proof.
     intros HV HR HP. destruct analyse_total as [nu [fi [fo [En [Ef [Eo Ea]]]]]].
@@ -301,7 +306,7 @@ Section Main.
     - intros C. apply D in C. rewrite (deterministic_implies_ll1 fi fo Ef Eo HV HR HP C). reflexivity.
   Qed.
 
-  Theorem analyse_terminates : analyse G <> None.
+  Theorem analyse_terminates : analyse G O <> None.
   Proof. destruct analyse_total as [nu [fi [fo [_ [_ [_ Ea]]]]]]. rewrite Ea. discriminate. Qed.
 End Main.
 
@@ -315,16 +320,32 @@ Proof.
   - eapply derives_trans; eauto.
 Qed.
 
-Theorem order_independent (G G' : gram) :
-  Permutation (prods G) (prods G') -> start G = start G' ->
-  forall nu nu', NullableNonTerminals G = Some nu -> NullableNonTerminals G' = Some nu' ->
+Theorem order_independent (G G' : gram) (O O' : oracle) :
+  oracle_ok G O -> oracle_ok G' O' ->
+  Permutation (prods G) (prods G') ->
+  forall nu nu', NullableNonTerminals G O = Some nu -> NullableNonTerminals G' O' = Some nu' ->
   forall A, In A nu <-> In A nu'.
 Proof.
-  intros HP HS nu nu' E E' A.
-  destruct (nullable_thm G) as [n1 [E1 H1]]. destruct (nullable_thm G') as [n2 [E2 H2]].
+  intros HO HO' HP nu nu' E E' A.
+  destruct (nullable_thm G O HO) as [n1 [E1 H1]]. destruct (nullable_thm G' O' HO') as [n2 [E2 H2]].
   rewrite E in E1. rewrite E' in E2. inversion E1; inversion E2; subst.
   rewrite H1, H2. unfold nullable_nt.
   assert (X : forall p, In p (prods G) <-> In p (prods G')).
   { intros p. split; apply Permutation_in; [exact HP | now apply Permutation_sym]. }
   split; apply derives_same_prods; [exact X | intros p; symmetry; apply X].
+Qed.
+
+(** the identity oracle, used by the extracted model *)
+Lemma id_oracle_ok G : oracle_ok G (id_oracle G).
+Proof. repeat split; auto. Qed.
+
+Lemma permutation_oracle_ok (G : gram) (O : oracle) :
+  (forall i, Permutation (o_null O i) (prods G)) ->
+  (forall i, Permutation (o_first O i) (prods G)) ->
+  (forall i, Permutation (o_follow O i) (prods G)) -> oracle_ok G O.
+Proof.
+  intros H1 H2 H3. repeat split; intros Hp;
+    first [ eapply Permutation_in; [apply H1|exact Hp] | eapply Permutation_in; [apply Permutation_sym, H1|exact Hp]
+          | eapply Permutation_in; [apply H2|exact Hp] | eapply Permutation_in; [apply Permutation_sym, H2|exact Hp]
+          | eapply Permutation_in; [apply H3|exact Hp] | eapply Permutation_in; [apply Permutation_sym, H3|exact Hp] ].
 Qed.
